@@ -89,7 +89,9 @@ func loadFor(repo string, s *spec.Spec, tags []string, env []string, overlay map
 		}
 		meta = append(meta, map[string]any{"dir": dir, "patterns": l.Patterns, "tags": tags, "env": env, "root_packages": roots, "files_parsed": res.Files, "wall_s": res.WallS})
 	}
-	return an.NewProg(loads...), meta, nil
+	prog := an.NewProg(loads...)
+	prog.Overlay = overlay
+	return prog, meta, nil
 }
 
 func cmdCheck(args []string) int {
